@@ -802,26 +802,68 @@ fn bp_op(rng: &mut Rng, mon: &mut Mon, out: &mut Out) -> (String, Result<String,
 }
 
 pub fn run(args: &Args) -> i32 {
-    let mut out = Out::new();
+    if args.extra.contains_key("probe") {
+        rt::probe(args.seed);
+        return 0;
+    }
     let nops = args.extra_usize("ops", 60);
     let rt_cases = args.extra_usize("rt", 0) as u64;
+    let rt_runs = args.extra_usize("rt_runs", 3);
+    let rt_all_threads = args.extra_usize("rt_all_threads", 0) != 0;
+    let jobs = args.extra_usize("jobs", 4).max(1);
     let watchdog = Duration::from_millis(args.extra_usize("watchdog_ms", 5000) as u64);
     let numbers: Vec<u64> = match args.only {
         Some(n) => vec![n],
         None => (0..args.cases + rt_cases).collect(),
     };
-    for n in numbers {
-        let mut rng = Rng::for_case(args.seed, n);
-        if n < args.cases {
-            run_mon_case(n, &mut rng, nops, watchdog, &mut out);
-            out.count("cases_mon");
-        } else {
-            match rt::run_rt_case(n, &mut rng, watchdog, &mut out) {
-                Ok(()) => out.count("cases_rt"),
-                Err(e) => {
-                    eprintln!("case {n}: {e}");
-                    return 3;
+    // Cases are independent (own DebugControl / Runtime, own Rng stream): run them on a few worker
+    // threads and merge the per-case outputs in case order, so the file does not depend on `jobs`.
+    let next = AtomicUsize::new(0);
+    let results: std::sync::Mutex<Vec<Option<Result<Out, String>>>> =
+        std::sync::Mutex::new((0..numbers.len()).map(|_| None).collect());
+    thread::scope(|scope| {
+        for _ in 0..jobs.min(numbers.len().max(1)) {
+            scope.spawn(|| loop {
+                let i = next.fetch_add(1, Ordering::SeqCst);
+                if i >= numbers.len() {
+                    break;
                 }
+                let n = numbers[i];
+                let mut rng = Rng::for_case(args.seed, n);
+                let mut out = Out::new();
+                let res = if n < args.cases {
+                    run_mon_case(n, &mut rng, nops, watchdog, &mut out);
+                    out.count("cases_mon");
+                    Ok(out)
+                } else {
+                    match rt::run_rt_case(n, &mut rng, watchdog, rt_all_threads, rt_runs, &mut out) {
+                        Ok(()) => {
+                            out.count("cases_rt");
+                            Ok(out)
+                        }
+                        Err(e) => Err(format!("case {n}: {e}")),
+                    }
+                };
+                results.lock().expect("results")[i] = Some(res);
+            });
+        }
+    });
+    let mut out = Out::new();
+    for r in results.into_inner().expect("results") {
+        match r {
+            Some(Ok(o)) => {
+                out.buf.push_str(&o.buf);
+                for (k, v) in o.stats {
+                    out.add(&k, v);
+                }
+            }
+            Some(Err(e)) => {
+                eprintln!("{e}");
+                return 3;
+            }
+            None => {
+                eprintln!("a case was not run");
+                return 3;
             }
         }
     }
